@@ -104,7 +104,8 @@ def table():
             lambda mode, off=off: _canon(_iv(((1.0, 2.0, "a"), (3.0, 4.0, "b"))).editTimestamps(off, mode)))
         add(("C09",), f"PointTier.editTimestamps({off}) [empty tier]", lambda mode, off=off: _canon(_pt(()).editTimestamps(off, mode)))
 
-    # --- validate: the event is "the object is inconsistent"
+    # --- validate: the event is "the object is inconsistent" (some fixtures reach into the private entry list; if that attribute is ever
+    #     renamed they silently stay consistent, which the relations below - they never say WHICH fixtures are inconsistent - tolerate)
     def broken_iv(which):
         t = _iv()
         if which == "outside":
